@@ -4,6 +4,7 @@ mod c13;
 mod c15;
 mod c16;
 mod reader_mc;
+mod writer_mc;
 
 use mc_core::report::{parse_cli, write_out, Report};
 use mc_core::Value;
@@ -18,6 +19,7 @@ fn main() {
         let v = if v.get("replay").is_some() { v["replay"].clone() } else { v };
         let (violated, text) = match v["property"].as_str().unwrap_or("") {
             "C02" | "C09" | "C14" if v["subject"] == "DeferredReader" => reader_mc::replay_file(&v),
+            "C11" | "C14" if v["subject"] == "DeferredWriter" => writer_mc::replay_file(&v),
             "C13" => c13::replay(&v),
             "C15" => c15::replay(&v),
             "C16" => c16::replay(&v),
@@ -44,9 +46,14 @@ fn main() {
             reader_mc::run(reader_mc::Mode::C09, cli.tier, &mut report);
             reader_mc::RULE_C02.into()
         }
+        "C11" => {
+            writer_mc::run(writer_mc::Mode::C11, cli.tier, &mut report);
+            writer_mc::RULE.into()
+        }
         "C14" => {
             reader_mc::run(reader_mc::Mode::C14, cli.tier, &mut report);
-            reader_mc::RULE_C02.into()
+            writer_mc::run(writer_mc::Mode::C14, cli.tier, &mut report);
+            format!("READER: {} || WRITER: {}", reader_mc::RULE_C02, writer_mc::RULE)
         }
         "C13" => {
             c13::run(cli.tier, &mut report);
